@@ -141,21 +141,21 @@ class MultiStart(BaseOptimizationLibrary):
         # the evaluations are stored in the sub-databases only,
         # and we need to store them manually in the main database.
         if n_processes > 1:
-            for problem in problems:
-                database = problem.database
-                f_hist, x_hist = database.get_function_history(
-                    self._problem.objective.name, with_x_vect=True
-                )
-                for xi, fi in zip(x_hist, f_hist):
-                    self._problem.database.store(xi, {self._problem.objective.name: fi})
+            names = [self._problem.objective.name]
+            for functions in [self._problem.constraints, self._problem.observables]:
+                names.extend(f.name for f in functions)
 
-                for functions in [self._problem.constraints, self._problem.observables]:
-                    for f in functions:
-                        f_hist, x_hist = database.get_function_history(
-                            f.name, with_x_vect=True
-                        )
-                        for xi, fi in zip(x_hist, f_hist):
-                            self._problem.database.store(xi, {f.name: fi})
+            # A sub-database may miss the values of some functions at some points,
+            # e.g. when a sub-optimization is stopped early.
+            for problem in problems:
+                for x_vect, output_values in problem.database.items():
+                    values = {
+                        name: output_values[name]
+                        for name in names
+                        if name in output_values
+                    }
+                    if values:
+                        self._problem.database.store(x_vect.wrapped_array, values)
 
         file_path = settings["multistart_file_path"]
         if file_path:
